@@ -77,7 +77,36 @@ def nontrivial(hist) -> bool:
     return False
 
 
-def run_c12_seed(seed: int, want_sample: bool = False, config: str | None = None) -> dict:
+VARIANTS = ["memerr_pre", "memerr_post", "int_pre", "int_post", "switch_pre", "switch_post"]
+
+
+def directed_plan(rng, case, history, site, variant) -> dict | None:
+    """A plan with exactly one fault / forced switch right before or right after the first golden hit of `site`."""
+    site = tuple(site)
+    for h in history:
+        if h.get("status") != "ok":
+            continue
+        for o, key in (h.get("wsk") or []):
+            if tuple(key) == site:
+                after = [w for w in (h.get("ws") or []) if w > o]
+                at = o if variant.endswith("_pre") or not after else after[0]
+                plan = {"exec": "preempt" if variant.startswith("switch") else "seq", "config": "directed:" + variant,
+                        "faults": [], "fp": [], "evict_mid": [], "switch_at": [], "sched_seed": rng.getrandbits(48),
+                        "quantum_mean": 300, "target_site": seam.site_str(site)}
+                if variant.startswith("switch"):
+                    plan["switch_at"].append({"step": h["i"], "at": at})
+                else:
+                    kind = "async_memerr" if variant.startswith("memerr") else "async_interrupt"
+                    plan["faults"].append({"step": h["i"], "kind": kind, "at": at})
+                return plan
+    return None
+
+
+def run_c12_seed(seed, want_sample: bool = False, config: str | None = None) -> dict:
+    directed = None
+    if isinstance(seed, (tuple, list)):
+        seed, site, variant = seed
+        directed = (tuple(site), variant)
     worker_init()
     t0 = time.perf_counter()
     stats = new_stats()
@@ -89,9 +118,29 @@ def run_c12_seed(seed: int, want_sample: bool = False, config: str | None = None
         res["hsig"] = signature_of_history(case, history)
         res["nontrivial"] = nontrivial(history)
         res["config"] = "golden"
+        if directed is None:
+            hits = {}
+            for h in history:
+                for _o, key in (h.get("wsk") or []):
+                    hits.setdefault(tuple(key), seed)
+            res["site_hits"] = hits
         if v is None:
             cfgname = config or CONFIGS[rng.randrange(4)]
-            plan = program_plan(rng, case, history, cfgname)
+            if directed is not None:
+                plan = directed_plan(rng, case, history, *directed)
+                cfgname = "directed"
+                if plan is None:
+                    res["config"] = "directed_unreached"
+                    res["wall"] = time.perf_counter() - t0
+                    return res
+                if case["cfg"]["n_clients"] < 2 and plan["exec"] == "preempt":
+                    case["cfg"]["n_clients"] = 2
+                    for k, st in enumerate(case["steps"]):
+                        st["c"] = k % 2
+                    history = [dict(h, c=case["steps"][j]["c"]) for j, h in enumerate(history)]
+                stats.setdefault("directed", {})[directed[1]] = 1
+            else:
+                plan = program_plan(rng, case, history, cfgname)
             res["config"] = cfgname
             if plan["exec"] == "seq":
                 v, hist2 = X.faulted_seq_run(case, plan, history, stats)
